@@ -208,6 +208,8 @@ def check(run, views, tier):
         run.floor("R-SCHEMETABLE", len(paths), 5, "paths through " + FN)
         if "ipputil" in crates:
             check_util_target(run, crates["ipputil"])
+        from .c12 import check_statics
+        check_statics(run, F)
         # the URL is computed from the target the caller configured: nobody rewrites the stored uri
         from .c11 import check_config_writers
         check_config_writers(run, F)
